@@ -40,7 +40,10 @@ def generate(tape, tier="quick"):
     # requests beyond the newest publication are refused and must leave the adapter as it was: the consumer then
     # continues from its last answered request (which may lie before the refused one)
     burst = (tape.draw(6), tape.rng_int(90, 160)) if tape.chance(1, 150) else None
-    events = gen_events(tape, 1, n_events, refused_future_keeps_last=True, future_chance=(1, 2), burst=burst)
+    from fractions import Fraction
+    step_pos = [Fraction(a["p"]) for a in chain if a["kind"] == "step"]
+    events = gen_events(tape, 1, n_events, refused_future_keeps_last=True, future_chance=(1, 2), burst=burst,
+                        step_pos=step_pos)
     src = {"units": tape.choice(["", "m", "km"])}
     if tape.chance(1, 4):
         from ..grids import gen_structured
